@@ -47,9 +47,11 @@ ASSUMPTIONS = [
     "the recursion limit is left at its default",
 ]
 FLOORS = {"quick": {"text_cases": 8000, "override_cases": 3000,
-                    "include_cases": 1000, "validator_runs": 150},
+                    "include_cases": 1000, "validator_runs": 150,
+                    "extreme_size_cases": 39},
           "thorough": {"text_cases": 600000, "override_cases": 120000,
-                       "include_cases": 60000, "validator_runs": 8000}}
+                       "include_cases": 60000, "validator_runs": 8000,
+                       "extreme_size_cases": 39}}
 N_MODELS = {"quick": 1000, "thorough": 40000}
 TEXTS = {"quick": 10, "thorough": 20}
 N_INCLUDE = {"quick": 1600, "thorough": 96000}
@@ -394,6 +396,25 @@ def do_validator(ctx, rng, dirpath, pairs_pool):
 
 # ---------------------------------------------------------------------------
 
+def size_texts():
+    return [("blank-run", "\n" * 1500 + "k v\n"),
+             ("comment-run", "# c\n" * 5000 + "k v\n"),
+             ("blank-and-comment-run", "\n  # c\n\t\n" * 2000 + "k v\n"),
+             ("blank-run-inside", "<sec>\n" + "\n" * 3000 + "k v\n</sec>\n"),
+             ("blank-run-at-end", "k v\n" + "\n" * 4000),
+             ("deep-nesting", "<sec>\n" * 1500 + "k v\n" + "</sec>\n" * 1500),
+             ("deeper-nesting", "<sec>\n" * 4000 + "</sec>\n" * 4000),
+             ("many-siblings", "<sec/>\n" * 20000),
+             ("many-keys", "k v\n" * 50000),
+             ("long-value", "k " + "x" * 500000 + "\n"),
+             ("long-key", "k" * 100000 + " v\n"),
+             ("many-defines", "".join("%%define n%d v%d\n" % (i, i)
+                                      for i in range(5000)) + "k $n4999\n"),
+             ("long-define-chain", "%define a0 x\n" + "".join(
+                 "%%define a%d $a%d.\n" % (i + 1, i) for i in range(1500))
+              + "k $a1500\n")]
+
+
 def run_shard(ctx):
     import ZConfig
     rng = ctx.rng("mut")
@@ -436,6 +457,42 @@ def run_shard(ctx):
                             "c.conf": ""})
     for i in range(N_INCLUDE[ctx.tier] // ctx.nshards):
         do_include(ctx, dschema, rng, d)
+    # (5) extreme sizes: what a generator or a careless merge produces.
+    # Nothing here is malformed, so each text loads - in particular without
+    # RecursionError or MemoryError (the recursion limit is the default)
+    sizes = size_texts()
+    for si, (name, text) in enumerate(sizes):
+        if not ctx.mine(si):
+            continue
+        for via in ("fileobj", "path", "include"):
+            ctx.res.evaluations += 1
+            ctx.res.count("extreme_size_cases")
+            if via == "fileobj":
+                fn = lambda: ZConfig.loadConfigFile(dschema, io.StringIO(text))  # noqa
+            else:
+                os.makedirs(d, exist_ok=True)
+                fp = os.path.join(d, "big.conf")
+                with open(fp, "w") as f:
+                    f.write(text)
+                if via == "path":
+                    fn = lambda: ZConfig.loadConfig(dschema, fp)  # noqa
+                else:
+                    top = os.path.join(d, "top.conf")
+                    with open(top, "w") as f:
+                        f.write("%include big.conf\n")
+                    fn = lambda: ZConfig.loadConfig(dschema, top)  # noqa
+            cls, e = run_entry(fn)
+            ctx.res.sig("size|%s|%s|%s" % (name, via, cls))
+            if cls == "internal" or (cls != "ok" and name != "long-key"):
+                ctx.res.violate(
+                    "internal-exception-escaped" if cls == "internal"
+                    else "well-formed-text-refused",
+                    {"family": "size", "shape": name, "via": via},
+                    "a configuration", "%s: %s" % (type(e).__name__,
+                                                    str(e)[:120]),
+                    detail="%s via %s: %s" % (name, via,
+                                              type(e).__name__),
+                    vsig="size|%s|%s" % (name, type(e).__name__))
     if pool:
         for i in range(N_VALIDATOR[ctx.tier] // ctx.nshards):
             do_validator(ctx, rng, os.path.join(ctx.tmp, "c07v"), pool)
@@ -461,6 +518,24 @@ def replay(ctx, case):
         else:
             cls, e = run_entry(lambda: ZConfig.loadConfig(
                 schema, os.path.join(d, "a.conf")))
+    elif fam == "size":
+        text = dict(size_texts())[case["shape"]]
+        schema = cc.load_schema(c06.DEFINE_SCHEMA)
+        d = os.path.join(ctx.tmp, "c07r")
+        os.makedirs(d, exist_ok=True)
+        with open(os.path.join(d, "big.conf"), "w") as f:
+            f.write(text)
+        with open(os.path.join(d, "top.conf"), "w") as f:
+            f.write("%include big.conf\n")
+        fn = {"fileobj": lambda: ZConfig.loadConfigFile(
+                  schema, io.StringIO(text)),
+              "path": lambda: ZConfig.loadConfig(
+                  schema, os.path.join(d, "big.conf")),
+              "include": lambda: ZConfig.loadConfig(
+                  schema, os.path.join(d, "top.conf"))}[case["via"]]
+        cls, e = run_entry(fn)
+        if cls != "ok" and case["shape"] != "long-key":
+            cls = "internal"
     elif fam == "validator":
         return
     else:
